@@ -104,13 +104,16 @@ def parse_model(ans):
     return d.get('tie') == '1', evs, pend
 
 
-def run_real(T, prog, outcomes, shutdown_at=None, make_buffer=None):
+def run_real(T, prog, outcomes, shutdown_at=None, make_buffer=None, eager=False):
     """Events ('start', t, sorted args) ('end', t, ok) ('wait-ret', t, id) ('wait-pending', id).
     With shutdown_at: the main coroutine returns at that instant and the loop is shut down the way
     asyncio.run does it; the last event is ('shutdown', 'ok' | 'hang')."""
     from aiuti.asyncio import BufferAsyncCalls
     loop = VLoop()
     asyncio.set_event_loop(loop)
+    if eager:
+        # a documented loop setting of Python 3.12: new tasks take their first step inside create_task()
+        loop.set_task_factory(asyncio.eager_task_factory)
     out = []
     now = lambda: round(loop.time() / TICK)
     horizon_ticks = (prog[-1][1] if prog else 0) + 200 * T
